@@ -122,11 +122,16 @@ def gen_hyper(rng, pair):
                  xs=[[round(logu(0.05, 3), 3) for _ in range(d)] for _ in range(n)])
     if pair == "gp":
         h.update(a=[logu(0.6, 5)], b=[logu(0.3, 3)], ks=[rng.randint(0, 6) for _ in range(n)])
+        if rng.random() < 0.25:
+            # a data set large enough for the marginal likelihood itself to be far outside the range of a double
+            # (log Z below -1500): importance weights must be averaged in the log domain
+            h["ks"] = [rng.randint(0, 9) for _ in range(rng.randint(700, 1100))]
     if pair in ("nn", "nn_aff", "lnn_exp", "two"):
         h.update(m0=rng.uniform(-2, 2), s0=logu(0.3, 3), sigma=logu(0.3, 3),
                  ys=[round(rng.uniform(-3, 3), 3) for _ in range(rng.randint(1, 5))])
         if pair == "nn_aff":
-            h.update(loc=round(rng.uniform(-2, 2), 2), scale=rng.choice([-1, 1]) * round(logu(0.3, 3), 2))
+            h.update(loc=round(rng.uniform(-2, 2), 2), scale=rng.choice([-1, 1]) * round(logu(0.3, 3), 2),
+                     scale_first=rng.random() < 0.5)
     if pair in ("bb", "bb_sig"):
         N = rng.randint(1, 12)
         h.update(ba=logu(0.6, 5), bb=logu(0.6, 5), N=N, k=rng.randint(0, N))
@@ -280,8 +285,9 @@ def build_spec(h, qclass, perturb):
         lat_id = "mu"
         if pair == "nn_aff":
             loc, scale = h["loc"], h["scale"]
+            # (the keys of a JSON object have no order: the transform's arguments are written in either order)
             objs.append(TP("mu", "torch.distributions.AffineTransform", P("mu.unres", [0.1]),
-                           {"loc": loc, "scale": scale}))
+                           {"scale": scale, "loc": loc} if h.get("scale_first") else {"loc": loc, "scale": scale}))
             lat_id = "mu.unres"
             qm, qs = (m1 - loc) / scale * f1, s1 / abs(scale) * f2
             jac = math.log(abs(scale))
